@@ -788,7 +788,29 @@ class MailExecutor(UnitsExecutor):
         kinds, self._probe_kinds = self._probe_kinds, {}
         return kinds
 
+    def loop_spec(self, node):
+        """A contract may give ONE invariant for whatever loops the body has (`loops={"*": LoopSpec(inv=..)}`): the invariant
+        decides from the sequence the loop walks what it has to say, so adding, removing or reordering loops re-verifies.  The
+        label (part of the obligation ids) is the last name of the iterated expression (`for a in mail.attachments` -> attachments)."""
+        spec = super().loop_spec(node)
+        if spec is None and self.contract is not None and self.inline_depth == 0 and "*" in self.contract.loops:
+            from pyvc.contracts import LoopSpec
+            e = node.iter if isinstance(node, ast.For) else None
+            while isinstance(e, ast.Call) and e.args:
+                e = e.args[0]
+            label = e.attr if isinstance(e, ast.Attribute) else (e.id if isinstance(e, ast.Name) else "loop")
+            wild = self.contract.loops["*"]
+            return LoopSpec(inv=wild.inv, label=label)
+        return spec
+
     def symbolic_for(self, s, st, it):
+        self._loop_nodes = getattr(self, "_loop_nodes", []) + [s]
+        try:
+            return self._symbolic_for(s, st, it)
+        finally:
+            self._loop_nodes = self._loop_nodes[:-1]
+
+    def _symbolic_for(self, s, st, it):
         if not self._probing:
             builds = any((isinstance(n, ast.Call) and isinstance(n.func, ast.Attribute) and n.func.attr in ("append", "extend"))
                          or (isinstance(n, ast.Subscript) and isinstance(n.ctx, ast.Store))
@@ -1356,10 +1378,25 @@ def appended_names(fnode, ordinal):
     return out
 
 
+def _appended_in(node):
+    out = []
+    for sub in ast.walk(node):
+        if isinstance(sub, ast.Call) and isinstance(sub.func, ast.Attribute) and sub.func.attr == "append" and isinstance(sub.func.value, ast.Name):
+            if sub.func.value.id not in out:
+                out.append(sub.func.value.id)
+    return out
+
+
 def built_list(lc, ordinal=0, kind="str"):
-    """The list the loop builds: the unique variable the loop body appends to."""
+    """The list the loop builds: the unique variable the loop body appends to (ordinal None: the loop being executed)."""
     fnode = lc.st.frame.fnode
-    names = appended_names(fnode, ordinal)
+    if ordinal is None:
+        nodes = getattr(lc.ex, "_loop_nodes", [])
+        if not nodes:
+            raise Unsupported("no loop is being executed")
+        names = _appended_in(nodes[-1])
+    else:
+        names = appended_names(fnode, ordinal)
     if len(names) != 1:
         raise Unsupported(f"loop {ordinal} appends to {names}: expected exactly one list")
     v = lc.st.lookup(names[0])
